@@ -25,7 +25,7 @@ func runC27(c *Ctx) {
 	c.Rule("cache-lockset", "cache read under >=R, written under W", 2)
 	c.Rule("first-match-wins", "one in-order pass; first match cached and used with the same index", 4)
 	c.Rule("tenant-match", "exact hit needs an exact matcher; true only under a glob match", 2)
-	c.Rule("lock-step-config", "hashrings[k] and tenantSets[k] appended together", 1)
+	c.Rule("lock-step-config", "hashrings[k] and tenantSets[k] appended together; tenant set created iff the list has entries", 2)
 	c.Rule("cache-single-writer", "only the lookup path writes the cache", 1)
 	p := c.Load("pkg/receive")
 	if p == nil {
@@ -273,11 +273,75 @@ func runC27(c *Ctx) {
 	} else {
 		var loop *ast.RangeStmt
 		ast.Inspect(nm.Body(), func(n ast.Node) bool {
-			if r, ok := n.(*ast.RangeStmt); ok && exprString(r.X) == "cfg" {
+			if r, ok := n.(*ast.RangeStmt); ok && exprString(r.X) == paramWhere(nm, func(ty string) bool { return ty == "[]receive.HashringConfig" }) {
 				loop = r
 			}
 			return true
 		})
+		// a hashring is the default exactly when its tenant list has no entry: GetN recognises the default by a
+		// nil tenant set, so the set must be created iff len(Tenants) > 0 — an empty but non-nil list
+		// (`"tenants": []`) must still give nil.
+		if loop != nil && loop.Value != nil {
+			info := nm.Info()
+			hv := canon(loop.Value)
+			var setVar types.Object
+			var guard ast.Expr
+			unguarded := false
+			ast.Inspect(loop.Body, func(n ast.Node) bool {
+				as, ok := n.(*ast.AssignStmt)
+				if !ok || len(as.Lhs) != 1 || len(as.Rhs) != 1 {
+					return true
+				}
+				call, ok := unparen(as.Rhs[0]).(*ast.CallExpr)
+				if !ok {
+					return true
+				}
+				if id, ok := call.Fun.(*ast.Ident); !ok || id.Name != "make" {
+					return true
+				}
+				if _, isMap := info.TypeOf(as.Lhs[0]).Underlying().(*types.Map); !isMap {
+					return true
+				}
+				setVar = objOf(info, as.Lhs[0])
+				if ifs, ok := p.ParentOf(nm.Pkg, p.ParentOf(nm.Pkg, as)).(*ast.IfStmt); ok && ifs.Else == nil && ifs.Init == nil {
+					guard = ifs.Cond
+				} else {
+					unguarded = true
+				}
+				return true
+			})
+			switch {
+			case setVar == nil:
+				c.Incomplete("lock-step-config", rel+".NewMultiHashring#default-iff-no-tenants", p.Pos(loop.Pos()), "creation of the tenant set not found")
+			case unguarded || guard == nil:
+				c.Bad("lock-step-config", rel+".NewMultiHashring#default-iff-no-tenants", p.Pos(loop.Pos()), "tenant-set-always-created", "the tenant set is created for every hashring: none would be recognised as the default")
+			default:
+				x := newE9(p, nm, func(e ast.Expr, text string) string {
+					if canon(e) == "len("+hv+".Tenants)" {
+						return "n"
+					}
+					return ""
+				})
+				x.AtomCmp = func(e ast.Expr, t string) string {
+					switch t {
+					case hv + ".Tenants!=nil":
+						return "nonnil"
+					case hv + ".Tenants==nil":
+						return "isnil"
+					}
+					return ""
+				}
+				_, cx, err := e9Table([]string{"n", "nonnil"}, []int64{0, 1}, func(env map[string]int64) bool {
+					return !(env["nonnil"] == 0 && env["n"] > 0) // a nil list has no entries
+				}, func(env map[string]int64) (int64, error) {
+					env["isnil"] = 1 - env["nonnil"]
+					v, err := x.eval(guard, env)
+					return b2i(v.b), err
+				}, func(env map[string]int64) int64 { return b2i(env["n"] > 0) })
+				reportE9(c, "lock-step-config", rel+".NewMultiHashring#default-iff-no-tenants", p.Pos(guard.Pos()), cx, err,
+					"the tenant set of a hashring is created under `"+exprString(guard)+"`, which is not `the tenant list has entries` (n = len(Tenants), nonnil = list is not nil): a hashring with an empty list would not act as the default")
+			}
+		}
 		okLS := false
 		if loop != nil {
 			nh, nt, skip := 0, 0, false
